@@ -387,6 +387,13 @@ fn gen_name<'a>(src: &mut Src, focus: Option<&Node<'a>>, cfg: &GenCfg) -> String
                 return (src.below(a.len() + 1) as i64 - if src.chance(1, 4) { 1 } else { 0 }).to_string();
             }
         }
+        // a property of another dialect's arrays, strings and objects (JavaScript, Jayway, JMESPath): a name
+        // like any other here - it selects a member of that name or nothing
+        if !matches!(n.v, J::Obj(_)) || src.chance(1, 12) {
+            if src.chance(1, 3) {
+                return src.pick(&["length", "size", "count", "keys", "values", "first", "last", "min", "max", "type", "constructor", "__proto__", "toString", "len"]).to_string();
+            }
+        }
         if let J::Obj(m) = n.v {
             if !m.is_empty() && src.chance(4, 5) {
                 return m[src.below(m.len())].0.clone();
